@@ -287,4 +287,194 @@ theorem unmarshalPrimitive_int_range {v : JV} {n : Int} (h : unmarshalPrimitive 
   | arr => simp [unmarshalPrimitive] at h
   | obj f => simp [unmarshalPrimitive] at h
 
+/-! ## Paths of the annotation walk (`annotated`/`bindings`) against the path reading `propAt` -/
+
+theorem namesDistinctB_iff (p : Props) : namesDistinctB p = true ↔ NamesDistinct p := by
+  induction p with
+  | nil => simp [namesDistinctB, NamesDistinct]
+  | cons n ty xh ch rest ihc ihr =>
+    simp only [namesDistinctB, NamesDistinct, Bool.and_eq_true, Bool.not_eq_true', ihc, ihr]
+    constructor
+    · rintro ⟨⟨h1, h2⟩, h3⟩
+      exact ⟨by simpa using h1, h2, h3⟩
+    · rintro ⟨h1, h2, h3⟩
+      exact ⟨⟨by simpa using h1, h2⟩, h3⟩
+
+theorem find_some_mem {k : Bytes} {p : Props} {e : Bytes × XH × Props} (h : p.find k = some e) :
+    k ∈ siblingNames p := by
+  induction p with
+  | nil => simp [Props.find] at h
+  | cons n ty xh ch rest _ ih =>
+    simp only [Props.find] at h
+    by_cases hn : n = k
+    · simp [siblingNames, hn]
+    · simp only [hn, if_false] at h
+      simp [siblingNames, ih h]
+
+theorem propAt_head_mem {p : Props} {k : Bytes} {π : List Bytes} {x : Bytes × XH}
+    (h : propAt p (k :: π) = some x) : k ∈ siblingNames p := by
+  cases π with
+  | nil =>
+    simp only [propAt] at h
+    cases hf : p.find k with
+    | none => simp [hf] at h
+    | some e => exact find_some_mem hf
+  | cons k' r =>
+    simp only [propAt] at h
+    cases hf : p.find k with
+    | none => simp [hf] at h
+    | some e => exact find_some_mem hf
+
+theorem propAt_cons_ne {n ty : Bytes} {xh : XH} {ch rest : Props} {k : Bytes} (π : List Bytes) (hne : n ≠ k) :
+    propAt (.cons n ty xh ch rest) (k :: π) = propAt rest (k :: π) := by
+  cases π with
+  | nil => simp [propAt, Props.find, hne]
+  | cons k' r => simp [propAt, Props.find, hne]
+
+theorem propAt_cons_eq_one {n ty : Bytes} {xh : XH} {ch rest : Props} :
+    propAt (.cons n ty xh ch rest) [n] = some (ty, xh) := by
+  simp [propAt, Props.find]
+
+theorem propAt_cons_eq_more {n ty : Bytes} {xh : XH} {ch rest : Props} {π : List Bytes} (hπ : π ≠ []) :
+    propAt (.cons n ty xh ch rest) (n :: π) = propAt ch π := by
+  cases π with
+  | nil => exact absurd rfl hπ
+  | cons k' r => simp [propAt, Props.find]
+
+/-- Soundness of the walk: every collected annotation sits at the path it is recorded under. -/
+theorem annotated_resolves (p : Props) (hd : NamesDistinct p) (pre : List Bytes) :
+    ∀ a ∈ annotated pre p, ∃ π, a.path = pre ++ π ∧ π ≠ [] ∧ propAt p π = some (a.ty, a.xh) ∧ a.xh ≠ .absent := by
+  induction p generalizing pre with
+  | nil => intro a ha; simp [annotated] at ha
+  | cons n ty xh ch rest ihc ihr =>
+    obtain ⟨hn, hdc, hdr⟩ := hd
+    intro a ha
+    simp only [annotated, List.mem_append] at ha
+    rcases ha with (ha | ha) | ha
+    · by_cases hx : xh = .absent
+      · simp [hx] at ha
+      · simp only [hx, if_false, List.mem_singleton] at ha
+        subst ha
+        exact ⟨[n], rfl, by simp, propAt_cons_eq_one, hx⟩
+    · obtain ⟨π, h1, h2, h3, h4⟩ := ihc hdc (pre ++ [n]) a ha
+      refine ⟨n :: π, by simp [h1], by simp, ?_, h4⟩
+      rw [propAt_cons_eq_more h2]; exact h3
+    · obtain ⟨π, h1, h2, h3, h4⟩ := ihr hdr pre a ha
+      refine ⟨π, h1, h2, ?_, h4⟩
+      cases π with
+      | nil => exact absurd rfl h2
+      | cons k r =>
+        have hk : k ∈ siblingNames rest := propAt_head_mem h3
+        have hne : n ≠ k := fun e => hn (e ▸ hk)
+        rw [propAt_cons_ne r hne]; exact h3
+
+/-- Completeness of the walk: every property reachable by a path that carries an `x-mcp-header` member is collected,
+under exactly that path. -/
+theorem annotated_complete (p : Props) (pre π : List Bytes) (ty : Bytes) (xh : XH)
+    (h : propAt p π = some (ty, xh)) (hx : xh ≠ .absent) :
+    ({ path := pre ++ π, ty := ty, xh := xh } : Ann) ∈ annotated pre p := by
+  induction p generalizing pre π with
+  | nil =>
+    cases π with
+    | nil => simp [propAt] at h
+    | cons k r => cases r <;> simp [propAt, Props.find] at h
+  | cons n ty' xh' ch rest ihc ihr =>
+    simp only [annotated, List.mem_append]
+    cases π with
+    | nil => simp [propAt] at h
+    | cons k r =>
+      by_cases hk : n = k
+      · subst hk
+        cases r with
+        | nil =>
+          rw [propAt_cons_eq_one] at h
+          simp only [Option.some.injEq, Prod.mk.injEq] at h
+          obtain ⟨rfl, rfl⟩ := h
+          left; left
+          simp [hx]
+        | cons k' r' =>
+          rw [propAt_cons_eq_more (by simp)] at h
+          left; right
+          have := ihc (pre ++ [n]) (k' :: r') h
+          simpa using this
+      · rw [propAt_cons_ne r hk] at h
+        right
+        exact ihr pre (k :: r) h
+
+
+/-- No aliasing: distinct annotated properties are recorded under distinct paths, at any depth and width. -/
+theorem annotated_paths_nodup (p : Props) (hd : NamesDistinct p) (pre : List Bytes) :
+    ((annotated pre p).map (·.path)).Nodup := by
+  induction p generalizing pre with
+  | nil => simp [annotated]
+  | cons n ty xh ch rest ihc ihr =>
+    have hres := annotated_resolves (.cons n ty xh ch rest) hd
+    obtain ⟨hn, hdc, hdr⟩ := hd
+    simp only [annotated, List.map_append]
+    rw [List.nodup_append, List.nodup_append]
+    refine ⟨⟨?_, ihc hdc _, ?_⟩, ihr hdr _, ?_⟩
+    · by_cases hx : xh = .absent <;> simp [hx]
+    · -- own path vs. children's paths
+      intro x hx y hy
+      by_cases hxa : xh = .absent
+      · simp [hxa] at hx
+      · simp only [hxa, if_false, List.map_cons, List.map_nil, List.mem_singleton] at hx
+        subst hx
+        obtain ⟨a, ha, rfl⟩ := List.mem_map.mp hy
+        obtain ⟨π, h1, h2, _, _⟩ := annotated_resolves ch hdc (pre ++ [n]) a ha
+        intro e
+        rw [h1] at e
+        have := congrArg List.length e
+        simp at this
+        exact h2 this
+    · -- own and children's paths vs. the later siblings' paths
+      intro x hx y hy
+      obtain ⟨b, hb, rfl⟩ := List.mem_map.mp hy
+      obtain ⟨π, h1, h2, h3, _⟩ := annotated_resolves rest hdr pre b hb
+      have hxform : ∃ σ, x = pre ++ n :: σ := by
+        rcases List.mem_append.mp hx with hx | hx
+        · by_cases hxa : xh = .absent
+          · simp [hxa] at hx
+          · simp only [hxa, if_false, List.map_cons, List.map_nil, List.mem_singleton] at hx
+            exact ⟨[], by simp [hx]⟩
+        · obtain ⟨a, ha, rfl⟩ := List.mem_map.mp hx
+          obtain ⟨σ, g1, _, _, _⟩ := annotated_resolves ch hdc (pre ++ [n]) a ha
+          exact ⟨σ, by simp [g1]⟩
+      obtain ⟨σ, rfl⟩ := hxform
+      intro e
+      rw [h1] at e
+      have e' := List.append_cancel_left e
+      cases π with
+      | nil => exact h2 rfl
+      | cons k r =>
+        have hk : k ∈ siblingNames rest := propAt_head_mem h3
+        simp only [List.cons.injEq] at e'
+        exact hn (e'.1 ▸ hk)
+
+theorem toBinding_path {a : Ann} {b : Binding} (h : toBinding a = some b) : b.path = a.path := by
+  unfold toBinding at h
+  cases hx : a.xh with
+  | str s =>
+    simp only [hx] at h
+    by_cases hs : s = []
+    · simp [hs] at h
+    · simp only [hs, if_false, Option.some.injEq] at h
+      subst h; rfl
+  | absent => simp [hx] at h
+  | null => simp [hx] at h
+  | other => simp [hx] at h
+
+theorem filterMap_paths_sublist (l : List Ann) :
+    List.Sublist ((l.filterMap toBinding).map (·.path)) (l.map (·.path)) := by
+  induction l with
+  | nil => simp
+  | cons a as ih =>
+    simp only [List.filterMap_cons, List.map_cons]
+    cases hb : toBinding a with
+    | none => exact List.Sublist.cons _ ih
+    | some b =>
+      simp only [List.map_cons, toBinding_path hb]
+      exact List.Sublist.cons_cons _ ih
+
+
 end Preflight
